@@ -76,7 +76,7 @@ def ev(t, model):
     funs = dict(FUNS)
     for k, v in (model or {}).items():
         if isinstance(v, dict):
-            funs[k] = (lambda d: (lambda *a: (lambda key: d.get(key, d.get(str(key), 0)))(a[0] if len(a) == 1 else tuple(a))))(v)
+            funs[k] = (lambda d: (lambda *a: (lambda key: d.get(key, d.get(str(key), 0)))(a[0] if len(a) == 1 else str(tuple(a)))))(v)
     return T.evaluate(t, _Default(model), funs)
 
 
